@@ -423,6 +423,25 @@ def run(ctx):
                         validate_and_maybe_execute(ctx, rng, case, t2, "adversarial:valid", d2, op2, amb)
                     else:
                         validate_and_maybe_execute(ctx, rng, case, t2, "adversarial:" + adv.__name__, None, None, amb)
+                # the parser's experimental fragment variables: validation of such trees must not raise
+                if doc.fragments:
+                    import re as _re
+
+                    fv_text = _re.sub(r"fragment (\w+) on ", lambda m: "fragment %s($fv%d: Int = 1, $fw: [String!]) on " % (m.group(1), len(m.group(1))),
+                                      text, count=rng.randint(1, 2))
+                    if rng.random() < 0.5:
+                        fv_text = "\n\n".join(reversed(fv_text.strip().split("\n\n"))) + "\n"
+                    ctx.evaluated()
+                    ctx.count("fragment_variable_documents")
+                    try:
+                        from py_gql.lang import parse as _parse
+                        from py_gql.validation import validate_ast as _validate
+
+                        _validate(case.schema, _parse(fv_text, experimental_fragment_variables=True))
+                    except Exception as e:
+                        ctx.violation("validate-raises:%s:fragment-variables" % type(e).__name__,
+                                      {"schema_sdl": case.sdl, "document": fv_text, "flags": {"experimental_fragment_variables": True}},
+                                      repr(e)[:300])
                 # introspection meta fields outside the query root and in odd places
                 meta = ["{ __schema { queryType { name } } __type(name: \"String\") { name kind } __typename }",
                         "{ ...M } fragment M on %s { __schema { types { name } } }" % case.ir.query]
